@@ -33,7 +33,8 @@ P = {'id': 'C15',
               'reorder_map_open_total',
               'dictionary_deserialize_total',
               'simd_lz77_decompress_total',
-              'hex_decode_str_total'],
+              'hex_decode_str_total',
+              'base64_decode_total'],
  'trusted': ['modelled (M+S, 39 entry points): src/io/var_int.rs (VarInt::decode, decode_multiple, SignedVarInt::decode_signed), src/io/var_int_variants.rs '
              '(decode_u64 / decode_i64 / decode_u64_sequence / decode_i64_sequence for all 7 strategies, incl. check_sequence_count), src/entropy/dictionary.rs '
              '(DictionaryCompressor::decompress and OptimizedDictionaryCompressor::decompress: flag format, back-reference and size-limit checks; the model tracks '
